@@ -541,6 +541,10 @@ func TestSeededDefects(t *testing.T) {
 			return
 		}
 		src := m.Text()
+		if rapid.Bool().Draw(t, "drawnLayout") {
+			toks := m.Tokens()
+			src, _ = ref.Render(toks, gen.Seps(t, toks))
+		}
 		afterUse := false
 		usedSoFar := map[string]bool{}
 		for _, d := range m.Decls {
